@@ -199,6 +199,21 @@ func runC20(c *Ctx) {
 					assertedFrom(closeCalls[0].(*ssa.Call).Call.Value, l.Index, compField, runnable) && loopExitsOnlyAtHeader(l) {
 					ok = true
 				}
+				// the other spelling: for n := len(components); n > 0; n-- { components[n-1] … }
+				if init, down := l.CountsDownToOne(); !ok && down && IsLenOfField(init, compField) && loopExitsOnlyAtHeader(l) {
+					for b := range l.Blocks {
+						for _, in := range b.Instrs {
+							bo, isBO := in.(*ssa.BinOp)
+							if !isBO || bo.Op != token.SUB || bo.X != l.Index {
+								continue
+							}
+							if k, isK := IntConst(bo.Y); isK && k == 1 && assertedFrom(closeCalls[0].(*ssa.Call).Call.Value, bo, compField, runnable) {
+								ok = true
+								detail = "App.Close iterates n=len(components)..1 descending and closes components[n-1], one Close per index, no early exit"
+							}
+						}
+					}
+				}
 			}
 		} else {
 			detail = fmt.Sprintf("expected one ComponentRunnable.Close call site in App.Close, found %d", len(closeCalls))
@@ -232,7 +247,31 @@ func runC20(c *Ctx) {
 	for _, spec := range []string{"app:(*App).Component", "app:GetComponent"} {
 		fn := p.Func(spec)
 		c.Fn(FuncName(fn))
-		ok, det := lookupShape(fn, compField, parentField)
+		// the walk may have been moved into a lookup helper (new since the anchor snapshot) called
+		// on the same app
+		shape := fn
+		if len(Loops(fn)) == 0 {
+			var cand *ssa.Function
+			n := 0
+			for _, ci := range CallsIn(fn) {
+				h := CalleeFunc(ci.Common())
+				if h == nil || h.Blocks == nil || !IsRepoFunc(h) || !IsNewFunc(h) || len(Loops(h)) == 0 {
+					continue
+				}
+				if a := ci.Common().Args; len(a) == 0 || len(fn.Params) == 0 || !originatesFromParam(a[0], fn.Params[0]) {
+					continue
+				}
+				if h != cand {
+					n++
+				}
+				cand = h
+			}
+			if n == 1 {
+				shape = cand
+				c.Fn(FuncName(shape))
+			}
+		}
+		ok, det := lookupShape(shape, compField, parentField)
 		c.Check(ok, "C20.4-lookup-order", FuncName(fn)+"|local-first-then-parents", p.Pos(fn.Pos()), det)
 		// every component the lookup hands out is read from a components slice during THIS walk:
 		// an answer taken from anywhere else (a cache, a field) is not re-resolved "locally first,
@@ -241,6 +280,15 @@ func runC20(c *Ctx) {
 		fromWalk = func(v ssa.Value, d int) bool {
 			if v == nil || d > 12 {
 				return false
+			}
+			if rvs := newHelperReturns(v); len(rvs) > 0 {
+				// handed back by the lookup helper: judged by what the helper returns
+				for _, rv := range rvs {
+					if !fromWalk(rv, d+1) {
+						return false
+					}
+				}
+				return true
 			}
 			switch x := v.(type) {
 			case *ssa.Const:
@@ -371,8 +419,21 @@ func indexedBy(recv ssa.Value, idx ssa.Value, field *types.Var) bool {
 		return false
 	}
 	ia, ok := ld.X.(*ssa.IndexAddr)
-	if !ok || ia.Index != idx {
+	if !ok {
 		return false
+	}
+	if ia.Index != idx {
+		// idx may be given as an offset form (counter-1): same operands, same operator
+		want, isBO := idx.(*ssa.BinOp)
+		got, isBO2 := ia.Index.(*ssa.BinOp)
+		if !isBO || !isBO2 || want.Op != got.Op || want.X != got.X {
+			return false
+		}
+		k1, ok1 := IntConst(want.Y)
+		k2, ok2 := IntConst(got.Y)
+		if !ok1 || !ok2 || k1 != k2 {
+			return false
+		}
 	}
 	return IsLoadOfField(ia.X, field)
 }
